@@ -7,6 +7,7 @@ from .common import layout
 
 ID = "C14"
 LEVEL = "exploration"
+HISTORY = True  # every second shard first runs a prelude of earlier library use (history.py)
 RULE = (
     "event streams the decoder produces for hypothesis-generated well-formed messages and streams, fault-injected inputs (size, value, "
     "cut, suffix; 1-3 faults) and arbitrary/mutated inputs, in warn mode and (when accepted) strict mode. Oracle: both printers "
